@@ -1,1 +1,111 @@
-/-! # C25 — property theorems (stub: not built yet) -/
+import PymocaVerif.Lemmas.XmlTree
+/-!
+# C25 — the ModelicaXML backend mirrors the flat model
+
+Property theorems only (helper lemmas: `Lemmas/XmlTree.lean`; model: `Model/XmlTree.lean`).
+All statements are for flat models of any size and expression trees of any depth and arity.
+`kept m` is `m` with, of each variable's prefixes, only the variability, and, of each when-equation, only the
+first branch: what the proofs show the XML to mirror; `elsewhen_branches_lost` shows that the rest is lost.
+-/
+namespace PymocaVerif.XmlTree
+
+/-- Whenever generation succeeds, a strict reader recovers the flat model from the XML: every class, every
+    variable (name, type, variability, start, value, fixed), every equation, operator for operator and operand
+    for operand, in order. -/
+theorem xml_decode_encode (cfg : Cfg) (m : Flat) (x : Xml) (h : encode cfg m = some x) :
+    decode x = some (kept m) :=
+  decode_encode cfg m x h
+
+example : encode Cfg.asIs ⟨[⟨"M", [⟨"x", "Real", ["parameter"], none, some (.lit "2"), false⟩],
+    [.equal (.op "der" [.ref "x"]) (.op "+" [.ref "x", .lit "1"])]⟩]⟩ ≠ none := by
+  simp [encode, okCls, okVar, okAttr, okQs, okQ, okE, okEs]
+
+/-- The XML determines that content: two flat models with the same XML agree on it. -/
+theorem xml_determines_model (cfg : Cfg) (m₁ m₂ : Flat) (x : Xml) (h₁ : encode cfg m₁ = some x)
+    (h₂ : encode cfg m₂ = some x) : kept m₁ = kept m₂ := by
+  have a := decode_encode cfg m₁ x h₁
+  have b := decode_encode cfg m₂ x h₂
+  rw [a] at b
+  exact Option.some.inj b
+
+example : encode Cfg.asIs ⟨[]⟩ = some (enc ⟨[]⟩) := rfl
+
+/-- Without `elsewhen` branches every equation is recovered exactly as it is in the flat model. -/
+theorem equations_recovered_exactly (m : Flat) (h : noElse m = true) :
+    (kept m).classes.map (·.eqs) = m.classes.map (·.eqs) := by
+  simp only [kept, List.map_map]
+  apply List.map_congr_left
+  intro c hc
+  have : noElseQs c.eqs = true := by
+    have := List.all_eq_true.mp h c hc
+    simpa using this
+  simp [keptCls, keptQs_self c.eqs this]
+
+example : noElse ⟨[⟨"M", [], [.when (.ref "b") [.call "reinit" [.ref "v", .lit "0"]] [] []]⟩]⟩ = true := rfl
+
+/-- Every variable keeps its name, builtin type, variability, start, value and fixed flag. -/
+theorem attrs_exact (v : Var) :
+    (keptVar v).name = v.name ∧ (keptVar v).type = v.type ∧ (keptVar v).start = v.start ∧
+    (keptVar v).value = v.value ∧ (keptVar v).fixed = v.fixed ∧
+    variabilityOf (keptVar v).prefixes = variabilityOf v.prefixes :=
+  ⟨rfl, rfl, rfl, rfl, rfl, variabilityOf_kept v.prefixes⟩
+
+/-- The variability written is the first of `discrete, continuous, parameter, constant` among the prefixes;
+    no attribute when there is none. -/
+theorem variability_is_first_match (ps : List String) :
+    (variabilityOf ps = some "discrete" ↔ "discrete" ∈ ps) ∧
+    (variabilityOf ps = some "continuous" ↔ "discrete" ∉ ps ∧ "continuous" ∈ ps) ∧
+    (variabilityOf ps = some "parameter" ↔ "discrete" ∉ ps ∧ "continuous" ∉ ps ∧ "parameter" ∈ ps) ∧
+    (variabilityOf ps = some "constant" ↔
+      "discrete" ∉ ps ∧ "continuous" ∉ ps ∧ "parameter" ∉ ps ∧ "constant" ∈ ps) ∧
+    (variabilityOf ps = none ↔
+      "discrete" ∉ ps ∧ "continuous" ∉ ps ∧ "parameter" ∉ ps ∧ "constant" ∉ ps) :=
+  variabilityOf_spec ps
+
+/-- One `component` element per flat variable, then one `equation` element holding one child per flat
+    equation, in order. -/
+theorem one_component_per_var_one_element_per_equation (c : Cls) :
+    encCls c = .node "classDefinition" [("name", c.name)]
+      [.node "class" [("kind", "model")] (c.vars.map encVar ++ [.node "equation" [] (c.eqs.map encQ)])] ∧
+    (c.vars.map encVar).length = c.vars.length ∧ (c.eqs.map encQ).length = c.eqs.length := by
+  refine ⟨by simp [encCls, encQs_eq_map], by simp, by simp⟩
+
+/-- An operator with operands `args` becomes one element carrying the operator's name with exactly the
+    operands' elements as children, in order (`operator` for one operand, `apply` otherwise). -/
+theorem operator_for_operator (n : String) (args : List Expr) :
+    (∀ a, args = [a] → encE (.op n args) = .node "operator" [("name", n)] [encE a]) ∧
+    (args.length ≠ 1 → encE (.op n args) = .node "apply" [("builtin", n)] (args.map encE)) := by
+  constructor
+  · intro a h; subst h; simp [encE, encEs]
+  · intro h
+    match args, h with
+    | [], _ => simp [encE, encEs]
+    | a :: b :: r, _ => simp [encE, encEs, encEs_eq_map]
+
+/-- Generation raises exactly when some class holds a node without handler or (on the tree as it is) a
+    `start` / `value` that is not a plain literal. -/
+theorem raises_iff (cfg : Cfg) (m : Flat) : encode cfg m = none ↔ m.classes.all (okCls cfg) = false := by
+  unfold encode
+  by_cases h : m.classes.all (okCls cfg) = true
+  · simp [h]
+  · simp [h]
+
+/-- Finding C25-F1: the `elsewhen` branches of a when-equation leave no trace — two different flat models,
+    one XML. -/
+theorem elsewhen_branches_lost (cfg : Cfg) :
+    let q₁ := Eqn.when (.ref "a") [.equal (.ref "d") (.lit "1")] [] []
+    let q₂ := Eqn.when (.ref "a") [.equal (.ref "d") (.lit "1")] [.ref "b"] [.equal (.ref "d") (.lit "2")]
+    let m₁ : Flat := ⟨[⟨"M", [], [q₁]⟩]⟩
+    let m₂ : Flat := ⟨[⟨"M", [], [q₂]⟩]⟩
+    encode cfg m₁ = encode cfg m₂ ∧ encode cfg m₁ ≠ none ∧ noElse m₂ = false := by
+  refine ⟨?_, ?_, rfl⟩ <;>
+    simp [encode, okCls, okQs, okQ, okE, okEs, enc, encCls, encQs, encQ]
+
+/-- Finding C25-F2: on the tree as it is a signed or computed `start` makes generation raise; with attribute
+    values built from the expression's element it is mirrored like any other expression. -/
+theorem signed_start_raises_as_is :
+    let m : Flat := ⟨[⟨"M", [⟨"x", "Real", [], some (.op "-" [.lit "1"]), none, false⟩], []⟩]⟩
+    encode Cfg.asIs m = none ∧ encode Cfg.exprs m ≠ none := by
+  constructor <;> simp [encode, okCls, okVar, okAttr, okQs, okE, okEs, Cfg.asIs, Cfg.exprs]
+
+end PymocaVerif.XmlTree
